@@ -1,6 +1,7 @@
 """Path context: decision prefix, solver, inputs, counterexample extraction."""
 import time
-import z3
+from fractions import Fraction
+from . import sx
 from .core import PathEnd, CheckFailed, Unsupported, is_sym
 
 
@@ -22,8 +23,7 @@ class PathCtx:
         self.cpos = 0
         self.inputs = []      # (tag, var-or-int, lo, hi)
         self.stats = stats or Stats()
-        self.solver = z3.Solver()
-        self.solver.set('timeout', timeout_ms)
+        self.zctx = sx.get_ctx(timeout_ms)
         self.model = None
         self.nsym_decisions = 0
         self.checks_reached = []
@@ -32,13 +32,20 @@ class PathCtx:
         self.sample_every = sample_every
         self.fresh = 0
         self.nondet = []
+        self.decided = {}
+        self.interp = None
+        self.keep = []   # keeps decided terms alive so that their ids are not reused
         self.cur = None
         self.fork_sites = {}
 
     # -------------------------------------------------------------- solver plumbing
+    def close(self):
+        self.model = None
+        self.zctx.close()
+
     def _check(self, *assumptions):
         t0 = time.time()
-        r = self.solver.check(*assumptions)
+        r = sx.check(*assumptions)
         dt = time.time() - t0
         st = self.stats
         st.queries += 1
@@ -47,19 +54,15 @@ class PathCtx:
             st.max_query_s = dt
         if self.sample_every and st.queries % self.sample_every == 0 and len(st.smt_samples) < 40:
             try:
-                s2 = z3.Solver()
-                s2.add(self.solver.assertions())
-                for a in assumptions:
-                    s2.add(a)
-                st.smt_samples.append((s2.to_smt2(), str(r)))
+                st.smt_samples.append((sx.to_smt2([a for a in assumptions if type(a) is sx.E]), r))
             except Exception:
                 pass
-        if r == z3.unknown:
-            raise Unsupported('solver returned unknown: %s' % self.solver.reason_unknown())
-        return r == z3.sat
+        if r == 'unknown':
+            raise Unsupported('solver returned unknown: %s' % sx.reason_unknown())
+        return r == 'sat'
 
     def add(self, c, keeps_model=False):
-        self.solver.add(c)
+        sx.assert_(c)
         if not keeps_model:
             self.model = None
 
@@ -67,7 +70,7 @@ class PathCtx:
         if self.model is None:
             if not self._check():
                 raise PathEnd('infeasible')
-            self.model = self.solver.model()
+            self.model = sx.Model()
         return self.model
 
     def in_replay(self):
@@ -84,27 +87,38 @@ class PathCtx:
     def branch(self, cond):
         if cond is True or cond is False:
             return cond
-        if z3.is_true(cond):
+        if sx.is_true(cond):
             return True
-        if z3.is_false(cond):
+        if sx.is_false(cond):
             return False
+        cid = cond.get_id()
+        hit = self.decided.get(cid)
+        if hit is not None:
+            return hit
+        val = self._branch(cond)
+        # the decision is now part of the path condition: the same term decides the same way from here on
+        self.decided[cid] = val
+        self.keep.append(cond)
+        return val
+
+    def _branch(self, cond):
         if self.pos < len(self.prefix):
             e = self._next('b')
             val = e[1]
-            self.add(cond if val else z3.Not(cond))
+            self.add(cond if val else sx.Not(cond))
             self.trace.append(e)
             if len(e) > 2 and e[2]:
                 self.nsym_decisions += 1
             return val
         m = self.get_model()
-        mv = z3.is_true(m.eval(cond, model_completion=True))
-        other = z3.Not(cond) if mv else cond
+        mv = m.eval(cond)
+        other = sx.Not(cond) if mv else cond
         forked = self._check(other)
         if forked:
-            self.alts.append(self.trace + [('b', not mv, True)])
             self.nsym_decisions += 1
+            self.alts.append(self.trace + [('b', not mv, True)])
             self.note_fork()
-        self.solver.add(cond if mv else z3.Not(cond))  # current model still satisfies it
+        sx.assert_(cond if mv else sx.Not(cond))  # current model still satisfies it
         self.trace.append(('b', mv, forked))
         return mv
 
@@ -123,10 +137,10 @@ class PathCtx:
             self.trace.append(e)
             return e[1]
         m = self.get_model()
-        if not z3.is_true(m.eval(cond, model_completion=True)):
+        if not m.eval(cond):
             r = False
         else:
-            r = not self._check(z3.Not(cond))
+            r = not self._check(sx.Not(cond))
         self.trace.append(('i', r))
         return r
 
@@ -145,19 +159,15 @@ class PathCtx:
                 n += 1
                 continue
             m = self.get_model()
-            val = m.eval(expr, model_completion=True)
-            if z3.is_bool(expr):
-                val = z3.is_true(val)
-            else:
-                val = val.as_long()
+            val = m.eval(expr)
             if self._check(expr != val):
                 n += 1
                 if n > 300:
                     raise Unsupported('concretisation of a value with more than 300 feasible values')
-                self.alts.append(self.trace + [('ne', val)])
                 self.nsym_decisions += 1
+                self.alts.append(self.trace + [('ne', val)])
                 self.note_fork()
-            self.solver.add(expr == val)
+            sx.assert_(expr == val)
             self.trace.append(('v', val))
             return val
 
@@ -168,23 +178,22 @@ class PathCtx:
         if self.concrete is not None:
             c = 0
         else:
-            v = z3.Int('%s?%d' % (tag, self.fresh))
+            v = sx.Int('%s?%d' % (tag, self.fresh))
             self.fresh += 1
-            self.add(z3.And(v >= 0, v < n))
+            self.add(sx.And(v >= 0, v < n))
             c = self.concretize(v)
         self.nondet.append((tag, c, n))
         return c
 
     def concretize_real(self, expr):
         """like concretize, for a Real-sorted term; returns a Fraction"""
-        from fractions import Fraction
         n = 0
         while True:
             if self.pos < len(self.prefix):
                 e = self._next('v')
                 self.trace.append(e)
                 q = Fraction(e[1][0], e[1][1])
-                c = z3.RealVal(e[1][0]) / e[1][1]
+                c = sx.RealVal(q)
                 if e[0] == 'v':
                     self.add(expr == c)
                     return q
@@ -192,16 +201,15 @@ class PathCtx:
                 n += 1
                 continue
             m = self.get_model()
-            val = m.eval(expr, model_completion=True)
-            q = Fraction(val.numerator_as_long(), val.denominator_as_long())
-            c = z3.RealVal(q.numerator) / q.denominator
+            q = Fraction(m.eval(expr))
+            c = sx.RealVal(q)
             if self._check(expr != c):
                 n += 1
                 if n > 300:
                     raise Unsupported('concretisation of a real with more than 300 feasible values')
                 self.alts.append(self.trace + [('ne', (q.numerator, q.denominator))])
                 self.nsym_decisions += 1
-            self.solver.add(expr == c)
+            sx.assert_(expr == c)
             self.trace.append(('v', (q.numerator, q.denominator)))
             return q
 
@@ -219,9 +227,9 @@ class PathCtx:
         if lo == hi:
             self.inputs.append((tag, lo, lo, hi))
             return lo
-        v = z3.Int('%s!%d' % (tag, len(self.inputs)))
+        v = sx.Int('%s!%d' % (tag, len(self.inputs)))
         self.inputs.append((tag, v, lo, hi))
-        self.add(z3.And(v >= lo, v <= hi))
+        self.add(sx.And(v >= lo, v <= hi))
         return v
 
     def assume(self, c):
@@ -233,8 +241,8 @@ class PathCtx:
             self.add(c)
             return
         m = self.model
-        if m is not None and z3.is_true(m.eval(c, model_completion=True)):
-            self.solver.add(c)
+        if m is not None and m.eval(c):
+            sx.assert_(c)
         else:
             self.add(c)
             self.get_model()  # raises PathEnd when infeasible
@@ -245,14 +253,16 @@ class PathCtx:
             return
         if c is False:
             raise CheckFailed(tag, self.input_values(None))
-        if z3.is_true(c):
+        if sx.is_true(c):
             return
+        if sx.is_false(c):
+            raise CheckFailed(tag, self.input_values(None))
         if self.pos < len(self.prefix):
             e = self._next('c')
             self.trace.append(e)
             return
-        if self._check(z3.Not(c)):
-            m = self.solver.model()
+        if self._check(sx.Not(c)):
+            m = sx.Model()
             raise CheckFailed(tag, self.input_values(m))
         self.trace.append(('c', True))
 
@@ -262,7 +272,7 @@ class PathCtx:
             if is_sym(v):
                 if m is None:
                     m = self.get_model()
-                x = m.eval(v, model_completion=True).as_long()
+                x = m.eval(v)
                 if x < lo or x > hi:
                     x = lo
                 out.append((tag, x))
